@@ -38,6 +38,7 @@ type Spec struct {
 	Children    int   `json:"children,omitempty"`     // children spawned in Started of the first incarnation of each process
 	RespawnKids bool  `json:"respawn_kids,omitempty"` // every later incarnation spawns the same child ids again in Started (refused as duplicates)
 	KidSwap     bool  `json:"kid_swap,omitempty"`     // while handling its first user message the actor lists its children, stops the first one and spawns another under a new id
+	EmptyMW     bool  `json:"empty_mw,omitempty"`     // an empty WithMiddleware() option follows the real ones
 	Replies     bool  `json:"replies,omitempty"`      // the receiver answers every user message that has a sender with Context.Respond
 	// Split > 0: the chain is handed over in two WithMiddleware options (the first Split layers, then the
 	// rest); the configured order is the order of the options.
